@@ -824,3 +824,16 @@ Qed.
 Lemma good_point_own_facts p l l' :
   l_now l' = l_now l -> fact_of l' (p_name p) = fact_of l (p_name p) -> good_point p l' = good_point p l.
 Proof. intros Hn Hf. unfold good_point. rewrite Hn, Hf. reflexivity. Qed.
+
+(** Every watcher of a signal gets the same rows: what the collector writes
+    for a watcher does not depend on who the watcher is - observer or auditor,
+    auditing at that moment or not - only on what the audition forwarded for
+    the variable.  (No condition on how the audition ended.) *)
+Lemma all_watchers_same_rows c cs items w1 w2 x :
+  NoDup (watchers_of x (c_watchers c)) ->
+  In w1 (watchers_of x (c_watchers c)) -> In w2 (watchers_of x (c_watchers c)) ->
+  rows c cs items w1 x = rows c cs items w2 x.
+Proof.
+  intros Hnd H1 H2. unfold rows. destruct (play c cs items) as [[os s] stt].
+  rewrite (file_rows_watcher _ _ _ _ Hnd H1), (file_rows_watcher _ _ _ _ Hnd H2). reflexivity.
+Qed.
